@@ -196,6 +196,99 @@ def rule_link(S, la):
     S.require('R-LINK', 'link stores in writer functions', n, 10)
 
 
+def rule_move(S):
+    """R-MOVE: every entry moved into another border has the layer below it re-parented."""
+    from yk.facts import call_args, call_recv, is_call, root_var, short_loc, cv_through, CALL_KINDS
+    from yk import rules as R
+    facts = S.facts()
+    Yq = 'yakushima::'
+    S.rule('R-MOVE', 'a function that moves entries into another border with border_node::set_lv(slot, entry) sets the '
+                     'parent of the layer below each moved entry (when it is a link) to that border: either in the same '
+                     'loop iteration (parent update on the next layer of the moved entry), or in a later loop over the '
+                     'destination slots that starts at the first slot written and runs up to the number of slots written')
+    n = 0
+    for f in sorted(facts.functions.values(), key=lambda x: x.fid):
+        moves = [x for x in f.all_nodes() if is_call(x, cq=Yq + 'border_node::set_lv')]
+        if not moves or f.qname.startswith(Yq + 'border_node::'):
+            continue
+        for mv in moves:
+            n += 1
+            dest = root_var(f, call_recv(f, mv))
+            a = call_args(f, mv)
+            ctr = root_var(f, a[0]) if a else None
+            src = a[1] if len(a) > 1 else None
+            ok = False
+            why = 'no re-parenting of the layers below the moved entries was found'
+            # (a) same iteration: set_parent(dest) on get_next_layer() of the moved entry (same source expression)
+            src_t = None
+            from yk.facts import term
+            src_t = term(f, src, res=True) if src is not None else None
+            blk_of = {}
+            for b, blk in f.blocks.items():
+                for e in blk.elems:
+                    blk_of[id(f.node(e))] = b
+            for sp in f.all_nodes():
+                if not is_call(sp, cq=Yq + 'base_node::set_parent'):
+                    continue
+                pa = call_args(f, sp)
+                if not pa or root_var(f, pa[0]) != dest:
+                    continue
+                recv_t = term(f, call_recv(f, sp), res=True)
+                # receiver derives from get_next_layer() of the moved entry
+                def mentions(t, sub):
+                    if t == sub:
+                        return True
+                    return isinstance(t, tuple) and any(mentions(x, sub) for x in t if isinstance(x, tuple))
+                rv = root_var(f, call_recv(f, sp))
+                ini = R.var_decl_init(f, rv) if rv else None
+                it = term(f, ini, res=True) if ini is not None else recv_t
+                if src_t is not None and mentions(it, src_t):
+                    ok = True
+                    break
+            if not ok:
+                # (b) a later counted loop over the destination slots
+                cinit = cv_through(f, R.var_decl_init(f, ctr)) if ctr and R.var_decl_init(f, ctr) is not None else None
+                for b, blk in f.blocks.items():
+                    t = blk.term
+                    if not t or t.get('k') != 'ForStmt' or 'cond' not in t or len(blk.succ) != 2:
+                        continue
+                    c = f.strip(f.node(t['cond']), casts=True)
+                    if c is None or c['k'] != 'BinaryOperator' or c.get('op') not in ('<', '!='):
+                        continue
+                    lv, bv = f.strip(f.ch(c)[0], casts=True), f.strip(f.ch(c)[1], casts=True)
+                    if lv is None or lv['k'] != 'DeclRefExpr' or bv is None:
+                        continue
+                    j = lv.get('id')
+                    body_sets = [sp for sp in f.all_nodes() if is_call(sp, cq=Yq + 'base_node::set_parent') and
+                                 call_args(f, sp) and root_var(f, call_args(f, sp)[0]) == dest]
+                    uses_j = False
+                    for sp in body_sets:
+                        rv = root_var(f, call_recv(f, sp))
+                        ini = R.var_decl_init(f, rv) if rv else None
+                        exprs = [call_recv(f, sp)] + ([ini] if ini is not None else [])
+                        for ex in exprs:
+                            for y in f.walk(ex):
+                                if y['k'] == 'DeclRefExpr' and y.get('id') == j:
+                                    uses_j = True
+                    if not uses_j:
+                        continue
+                    jinit = R.var_decl_init(f, j)
+                    start = cv_through(f, jinit) if jinit is not None else None
+                    bound_is_ctr = bv['k'] == 'DeclRefExpr' and bv.get('id') == ctr
+                    if start is not None and cinit is not None and start == cinit and bound_is_ctr:
+                        ok = True
+                    else:
+                        why = 'the separate re-parenting loop covers slots [%s, %s) but the move wrote slots starting at %s up ' \
+                              'to its counter: a moved link outside that range keeps its old parent' % (
+                                  start, 'counter' if bound_is_ctr else 'another bound', cinit)
+                    break
+            fname = f.qname + ('<%s>' % f.targs if f.targs else '')
+            S.ob('R-MOVE', fname, 'entries moved by set_lv at ' + short_loc(mv), ok,
+                 'the layer below every moved entry is re-parented to the destination border' if ok else why,
+                 loc=short_loc(mv))
+    S.require('R-MOVE', 'entry moves between borders', n, 1)
+
+
 def run(S):
     S.undecided = ['sortedness and uniqueness inside nodes', 'separators bounding their subtrees',
                    'get == scan == reverse iscan at quiescence (all value-dependent)']
@@ -208,6 +301,7 @@ def run(S):
     rule_mul(S, la)
     rule_rawv(S, la)
     rule_link(S, la)
+    rule_move(S)
     # sortedness inside nodes and separators bounding their subtrees need every routing / rank / split-side decision
     # to implement the one key order (shared with C18)
     from checks.C18 import rule_cmp
